@@ -442,3 +442,17 @@ func Tokenize(src string) ([]Token, []Comment, *LexError) {
 		toks = append(toks, t)
 	}
 }
+
+// IsName reports whether s is a Lua identifier (not a keyword).
+func IsName(s string) bool {
+	if s == "" || keywords[s] {
+		return false
+	}
+	for i := 0; i < len(s); i++ {
+		c := s[i]
+		if !(c == '_' || c >= 'a' && c <= 'z' || c >= 'A' && c <= 'Z' || i > 0 && c >= '0' && c <= '9') {
+			return false
+		}
+	}
+	return true
+}
